@@ -95,6 +95,13 @@ class Engine:
                     self.assumed.add("field %s.%s is not in the contract schema: kind %s read from its annotation in the source" % (cname, f, kind))
 
     # ------------------------------------------------------------ utilities
+    def truth_of(self, st, v):
+        """Python truthiness; lists / sets / 1-D arrays of the heap are true iff non-empty (None is false)"""
+        if isinstance(v.k, tuple) and v.k[0] in ('list', 'set') and v.t is not None:
+            n = self.list_len(st, v) if v.k[0] == 'list' else z3.Select(st.heap.get('len'), v.t)
+            return z3.And(v.t != 0, n > 0)
+        return truth(v)
+
     def uf(self, name, *sorts):
         key = (name,) + tuple(str(s) for s in sorts)
         if key not in self._uf:
@@ -370,7 +377,7 @@ class Engine:
     def ev_UnaryOp(self, node, st):
         v = self.ev(node.operand, st)
         if isinstance(node.op, ast.Not):
-            return vbool(z3.Not(truth(v)))
+            return vbool(z3.Not(self.truth_of(st, v)))
         if isinstance(node.op, ast.USub):
             if v.k == 'int':
                 return vint(-v.t)
@@ -399,7 +406,7 @@ class Engine:
         return vbool(z3.And(*vals) if isinstance(node.op, ast.And) else z3.Or(*vals))
 
     def ev_IfExp(self, node, st):
-        c = truth(self.ev(node.test, st))
+        c = self.truth_of(st, self.ev(node.test, st))
         st.guards.append(c)
         try:
             a = self.ev(node.body, st)
